@@ -29,15 +29,28 @@ def enter():
     STATS['calls'] += 1
 
 
+_PLAIN = (str, int, bool, bytes, float, type(None))
+
+
+def _clean(facts):
+    """facts are logged only when they are plain concrete values; a symbolic value is
+    never realised for logging (that would add solver decisions) but shown as <sym>"""
+    try:
+        from crosshair.tracers import NoTracing
+        with NoTracing():
+            return tuple(f if type(f) in _PLAIN else '<sym>' for f in facts)
+    except Exception:
+        return tuple(f if type(f) in _PLAIN else '<sym>' for f in facts)
+
+
 def note(*facts):
-    """record concrete facts (must not contain symbolic values)"""
-    FACTS[tuple(facts)] += 1
+    FACTS[_clean(facts)] += 1
 
 
 def verdict(ok, *facts):
     STATS['reached'] += 1
     if facts:
-        FACTS[tuple(facts)] += 1
+        FACTS[_clean(facts)] += 1
     if MODE == 'reach':
         return False
     return ok
@@ -45,3 +58,64 @@ def verdict(ok, *facts):
 
 def param(name, default=None):
     return PARAMS.get(name, default)
+
+
+# ---------------------------------------------------------------------------
+# Tracing control.  CrossHair interprets every byte code of traced code.  Code
+# regions into which no symbolic value flows (real Bob code working on concrete
+# dictionaries / bytes, the stub file system's bookkeeping) are run with tracing
+# suspended; the symbolic decisions (crash index, fault index, schedule choice,
+# torn mode) are taken at the environment boundary inside `traced()` sections.
+# Outside CrossHair (plain replay) both are no-ops.
+class _Null:
+    def __enter__(self):
+        return self
+
+    def __exit__(self, *a):
+        return False
+
+
+def _tracing_active():
+    try:
+        from crosshair.tracers import is_tracing
+        return is_tracing()
+    except Exception:
+        return False
+
+
+def fast():
+    try:
+        from crosshair.tracers import NoTracing, is_tracing
+        if is_tracing():
+            return NoTracing()
+    except Exception:
+        pass
+    return _Null()
+
+
+def traced():
+    try:
+        from crosshair.tracers import ResumedTracing, is_tracing
+        from crosshair.statespace import optional_context_statespace
+        if (not is_tracing()) and optional_context_statespace() is not None:
+            return ResumedTracing()
+    except Exception:
+        pass
+    return _Null()
+
+
+def concretize(x, n, lo=0):
+    """case-split a symbolic int with lo <= x < n into a concrete int (one solver
+    decision per value)"""
+    for k in range(lo, n):
+        if x == k:
+            return k
+    raise HarnessGap('concretize: value outside [%d,%d)' % (lo, n))
+
+
+def sym_eq(a, b):
+    """a == b decided by the solver even when called from a fast() region"""
+    with traced():
+        if a == b:
+            return True
+        return False
